@@ -77,12 +77,70 @@ def _clip_range(rng, lo, length):
     return (a - lo, c, 1)
 
 
+class Ledger:
+    """allocation ledger (C03): bytes of live abstract arrays that own their buffer; peak tracked symbolically.
+    An array registers its bytes when created and releases them when CPython frees it (natural refcounting), like NumPy
+    buffers; views (basic slices, expand_dims, squeeze, permute, flip, broadcast) own nothing and keep their base alive."""
+
+    def __init__(self):
+        self.on = False
+        self.current = 0
+        self.highs = []
+        self.events = []
+
+    def reset(self, on=True):
+        self.on = on
+        self.current = 0
+        self.highs = []  # live bytes after every allocation: the peak is their maximum (kept as a list: no nested ite terms)
+        self.events = []
+
+    def alloc(self, n, what=""):
+        self.current = self.current + n
+        self.highs.append(self.current)
+        if len(self.events) < 60:
+            self.events.append(("+", what, n))
+
+    def free(self, n, what=""):
+        self.current = self.current - n
+        if len(self.events) < 60:
+            self.events.append(("-", what, n))
+
+    def transient(self, n, what=""):
+        self.alloc(n, what)
+        self.free(n, what)
+
+
+LEDGER = Ledger()
+
+
+def _itemsize(dtype):
+    try:
+        return _np.dtype(dtype).itemsize
+    except TypeError:
+        return 8
+
+
 class AArr:
     __array_priority__ = 1000.0
+    _owns = False  # True for classes whose instances own a freshly allocated buffer
+    _children = ()  # attribute names dropped in ledger mode (a NumPy result does not keep its inputs alive)
 
     def __init__(self, shape, dtype):
         self.shape = tuple(shape)
         self.dtype = dtype
+        self._led = None
+        if LEDGER.on and self._owns:
+            n = _prod(self.shape) * _itemsize(dtype)
+            self._led = n
+            LEDGER.alloc(n, type(self).__name__)
+            for a in self._children:  # a NumPy result does not keep its inputs alive
+                if a in self.__dict__:
+                    setattr(self, a, None)
+
+    def __del__(self):
+        n = getattr(self, "_led", None)
+        if n is not None and LEDGER.on:
+            LEDGER.free(n, type(self).__name__)
 
     # ---- metadata ----
     @property
@@ -234,6 +292,8 @@ class Const(AArr):
 
 
 class Assembled(AArr):
+    _owns = True
+    _children = ()
     """nxp.empty(shape) filled by `out[sel] = value` statements"""
 
     def __init__(self, shape, dtype):
@@ -263,6 +323,8 @@ class Assembled(AArr):
                 if vshape[d] == 1:
                     raise sx.Violated("block-silently-broadcast-on-assignment", f"value shape {vshape} into region {region}")
                 raise ValueError(f"could not broadcast input array from shape {vshape} into shape {tuple(r[1] for r in region)}")
+        if LEDGER.on:
+            value = None  # NumPy copies the data into the buffer: the assigned array is not kept alive
         self.patches.append((tuple(region), value))
 
     def at(self, idx):
@@ -305,6 +367,8 @@ class Assembled(AArr):
 
 
 class Elemwise(AArr):
+    _owns = True
+    _children = ('args',)
     def __init__(self, fname, args, **kw):
         self.fname = fname
         self.args = tuple(args)
@@ -358,6 +422,8 @@ class Elemwise(AArr):
 
 
 class Reduce(AArr):
+    _owns = True
+    _children = ('base',)
     def __init__(self, fname, base, axes, keepdims, dtype=None):
         self.fname = fname
         self.base = base
@@ -417,6 +483,8 @@ class _Ref:
 
 
 class Concat(AArr):
+    _owns = True
+    _children = ('parts',)
     def __init__(self, parts, axis):
         self.parts = list(parts)
         if not self.parts:
@@ -568,12 +636,14 @@ def make_slice(base, key):
 
 
 class Opaque(AArr):
+    _owns = True
+    _children = ('deps',)
     """result of a function whose routing is not modelled (qr, matmul ...): shape only"""
 
     def __init__(self, shape, dtype, tag, deps=()):
-        super().__init__(shape, dtype)
         self.tag = tag
         self.deps = tuple(deps)
+        super().__init__(shape, dtype)
 
     def at(self, idx):
         return ("opaque", self.tag)
@@ -621,6 +691,8 @@ class _Linalg:
 
 
 class Repeat(AArr):
+    _owns = True
+    _children = ('base',)
     def __init__(self, base, repeats, axis):
         self.base = base
         self.repeats = repeats
@@ -666,6 +738,8 @@ class Reshape(AArr):
 
 
 class Cum(AArr):
+    _owns = True
+    _children = ('base',)
     def __init__(self, fname, base, axis, include_initial):
         self.fname = fname
         self.base = base
